@@ -632,6 +632,9 @@ class Model:
                            z3.ForAll([i], z3.Implies(z3.And(0 <= i, i < j), z3.Not(star_has(s_, i)))), *[z3.Not(x) for x in prev])
             st.assume(z3.ForAll([k, j], z3.Implies(first, map_get(n.term, k, ty.key, ty.val) ==
                                                    map_get(seq_at(s_.term, j, ty), k, ty.key, ty.val))))
+            # least-number principle (a fact about the naturals the solver cannot derive): if some map of the sequence holds k, one of them is the first
+            least = z3.And(0 <= j, j < seq_len(s_.term), star_has(s_, j), z3.ForAll([i], z3.Implies(z3.And(0 <= i, i < j), z3.Not(star_has(s_, i)))))
+            st.assume(z3.ForAll([k], z3.Implies(in_star[si], z3.Exists([j], least))))
         st.assume(seq_len(map_keys(n.term)) >= 0)
         return n
 
